@@ -9,18 +9,30 @@ Binding (B)  : harness/cmd/c17 runs two real p2p.Connections on loopback in one 
                validated line by line against ReqResp by spec/trace/ReqRespTrace.tla (one trace per round), and
                the real results are asserted directly (bounded completion, payload produced for THAT request id,
                VerifPending()==0 at quiescence).
-Forced       : the hook is a scheduler gate; the two classic interleavings (response before registration; late
-               response racing with the timeout path) are driven on the real code.  Verdicts come only from
-               the real outcome; a schedule that cannot be established is inconclusive, never a violation."""
+Forced       : the hook is a scheduler gate; the classic interleavings (response before registration; late
+               response racing with the timeout path; cancellation at the delivery point) are driven on the real
+               code, plus directed scenarios: a peer that accepts TCP and never speaks (is resMu held across
+               mp.send? shape constant SendUnderLock, Stall in ReqResp), failing sends under a watchdog, and the
+               payload domain (nil ... 5 MiB echoed, nil / empty / error replies).  Verdicts come only from
+               the real outcome; a schedule that cannot be established is inconclusive, never a violation.
+Traffic      : one profile per round: plain+rate limit, symmetric (both hosts request and answer, second responder,
+               handlers that issue a request of their own), failing sends and black-holed peers inside the
+               traffic, handler-error / empty replies, a burst of 64 simultaneous callers, connection loss /
+               Stop while requests wait.  The trace specification also decides NoVanishedReply (a reply the remote
+               handler produced reaches the lookup) and TimerNotEarly (per-attempt timer vs configured timeout)."""
 import json, os, re, threading
 from concurrent.futures import ThreadPoolExecutor
 import common
 from common import Inconclusive, finish, log
 
 LEVEL = "model_checking"
-SAFE = dict(RegisterFirst=True, DeliverUnderLock=True, Buffered=True, TrySend=True)
+SAFE = dict(RegisterFirst=True, DeliverUnderLock=True, Buffered=True, TrySend=True, SendUnderLock=False)
 INV_KEY = {"NoLostReply": "lost-reply:response-before-registration", "Correlated": "miscorrelated-response",
-           "NoLeak": "pending-leak", "ResultSane": "trace-invariant:ResultSane"}
+           "NoLeak": "pending-leak", "ResultSane": "trace-invariant:ResultSane",
+           "NoVanishedReply": "lost-reply:response-never-reached-lookup", "TimerNotEarly": "lost-reply:timer-early"}
+FORCED = ("lost", "deadlock", "cancelrace", "blackhole", "payload")
+QUICK_PROFILES = ["limit", "sym", "fail", "err", "burst", "stop"]
+THOROUGH_PROFILES = ["plain", "limit", "sym", "fail", "err", "burst", "stop", "sym", "err"]
 _lock = threading.Lock()
 
 
@@ -45,7 +57,8 @@ def write_cfg(ctx, name, text):
 
 
 def shape_name(s):
-    return "RF=%s/DUL=%s/BUF=%s/TRY=%s" % tuple(B(s[k])[0] for k in ("RegisterFirst", "DeliverUnderLock", "Buffered", "TrySend"))
+    n = "RF=%s/DUL=%s/BUF=%s/TRY=%s" % tuple(B(s[k])[0] for k in ("RegisterFirst", "DeliverUnderLock", "Buffered", "TrySend"))
+    return n + ("/SUL=T" if s.get("SendUnderLock") else "")
 
 
 # ------------------------------------------------------------------------------------------ model checking
@@ -84,6 +97,24 @@ def model_check(ctx, tag, shape, calls, retry, dupb, canfail=True, timeout=420, 
         else:
             out["states"] = max(out["states"], r["distinct"])
             out["generated"] = max(out["generated"], r["generated"])
+    return out
+
+
+def model_check_stall(ctx, tag, shape, calls, timeout=420):
+    """One call's send blocks in the network for ever (Stall), another call carries a deadline (CanGiveUp): the layer must
+    not be blocked by the stalled call (NoDeadlock quantifies over the others).  No symmetry."""
+    kw = dict(Calls="{" + ", ".join("c%d" % i for i in range(1, calls + 1)) + "}")
+    for k, v in shape.items():
+        kw[k] = B(v)
+    cfg = write_cfg(ctx, "mc_stall_%s" % tag, cfg_text("ReqResp_stall", **kw))
+    r = ctx.tlc("MCReqResp", cfg, workers=4, timeout=timeout)
+    out = dict(shape=shape_name(shape), calls=calls, max_retry=1, dup_budget=0, send_failures=True, stalled_calls=1, deadline_calls=1,
+               violated=re.findall(r"Invariant (\w+) is violated", r["out"]) if r["violation"] else [], states=r["distinct"],
+               generated=r["generated"], complete=True, counterexamples={})
+    if r["violation"] and not out["violated"]:
+        raise Inconclusive("TLC reported an error that is not an invariant violation (stall %s): %s" % (tag, r["outpath"]))
+    if out["violated"]:
+        out["counterexamples"][out["violated"][0]] = re.findall(r"^State \d+: <(.*?) line \d+", r["out"], re.M)[:40]
     return out
 
 
@@ -135,7 +166,7 @@ def validate_trace(ctx, path, shape, tail=False, tag="t"):
 
 def candidates(shape):
     """Variants to try for a partially known shape (None = not observable in this run)."""
-    out = [{}]
+    out = [dict(SendUnderLock=bool(shape.get("SendUnderLock")))]
     for k in ("RegisterFirst", "DeliverUnderLock", "Buffered"):
         vals = [shape[k]] if shape.get(k) is not None else ([False, True] if k != "DeliverUnderLock" else [True, False])
         out = [dict(o, **{k: v}) for o in out for v in vals]
@@ -162,9 +193,12 @@ def run_forced(ctx, binp, scenario, tms):
 
 
 def run_traffic(ctx, binp, tag, seed, rounds, workers, per, tms):
+    """rounds: a list of profile names (or, in older replay files, a number of plain rounds)."""
     pre = ctx.path("traffic_%s" % tag); meta = ctx.path("traffic_%s.json" % tag)
-    p = ctx.run([binp, "traffic", pre, meta, str(rounds), str(workers), str(per), str(tms)], env={"VERIF_SEED": str(seed)},
-                timeout=120 + rounds * 30)
+    profs = ",".join(rounds) if isinstance(rounds, (list, tuple)) else str(rounds)
+    nr = len(rounds) if isinstance(rounds, (list, tuple)) else int(rounds)
+    p = ctx.run([binp, "traffic", pre, meta, profs, str(workers), str(per), str(tms)], env={"VERIF_SEED": str(seed)},
+                timeout=240 + nr * 60)
     if not os.path.exists(meta):
         raise Inconclusive("traffic driver wrote no result: rc=%d %s" % (p.returncode, p.stderr[-800:]))
     d = json.load(open(meta))
@@ -176,7 +210,8 @@ def run_traffic(ctx, binp, tag, seed, rounds, workers, per, tms):
 
 def forced_replay(d):
     return dict(scenario=d["scenario"], timeout_ms=d["timeout_ms"], schedule=d.get("schedule"), events=d.get("events"),
-                attempts=d.get("attempts"), call=d.get("call"), fresh_call=d.get("fresh_call"), dump=d.get("dump"))
+                attempts=d.get("attempts"), call=d.get("call"), fresh_call=d.get("fresh_call"), dump=d.get("dump"),
+                other_calls=d.get("other_calls"), coverage=d.get("coverage"))
 
 
 def report_forced(ctx, d):
@@ -189,58 +224,109 @@ def report_forced(ctx, d):
 
 
 # ------------------------------------------------------------------------------------------ driver
+FORCED_T = dict(lost=(300, 200), deadlock=(300, 200), cancelrace=(300, 200), blackhole=(100, 0), payload=(3000, 3000))
+
+
+def vacuity(stats, per, profiles, forced_d):
+    """Non-vacuity of everything the traffic profiles and directed scenarios are there for: a run in which a scenario never
+    happened is inconclusive, not a pass."""
+    notes = []
+    g = lambda prof, k: (per.get(prof) or {}).get(k, 0)
+    if stats.get("Timers", 0) == 0 or stats.get("Found", 0) == 0 or stats.get("LateMiss", 0) == 0 or stats.get("Cancel", 0) == 0:
+        notes.append("random traffic was vacuous (timers=%d delivered=%d late=%d cancels=%d)" % (
+            stats.get("Timers", 0), stats.get("Found", 0), stats.get("LateMiss", 0), stats.get("Cancel", 0)))
+    if stats.get("Responded", 0) == 0:
+        notes.append("no handler return was logged (NoVanishedReply vacuous)")
+    if stats.get("TimersMeasured", 0) == 0:
+        notes.append("no attempt timer was measured")
+    need = {
+        "limit": [("Responded", 11, "fewer replies than the rate limit of 10: the limit never bit")],
+        "sym": [("CallsFromB", 1, "host B made no request"), ("Found@A", 1, "no reply delivered on host A"),
+                ("Found@B", 1, "no reply delivered on host B"), ("SecondResponderReplies", 1, "the second responder answered nothing"),
+                ("NestedResp", 1, "no handler's own request was answered")],
+        "fail": [("FailedSends", 1, "no failing send inside the traffic"), ("BlackholeCalls", 1, "no request to the black-holed address")],
+        "err": [("HandlerErrorDelivered", 1, "no handler-error reply delivered"), ("EmptyReplyDelivered", 1, "no empty reply delivered"),
+                ("NilRequestAnswered", 1, "no nil request answered")],
+        "burst": [("BurstCallers", 64, "burst smaller than 64 callers"), ("Found", 1, "nothing delivered in the burst")],
+        "stop": [("StopRounds", 1, "no connection-loss round"), ("PendingWhenConnectionClosed", 1, "no request was waiting when the connection was closed")],
+    }
+    for prof in set(profiles):
+        if prof not in per:
+            notes.append("profile %s: no round completed" % prof)
+            continue
+        for k, mn, what in need.get(prof, []):
+            if g(prof, k) < mn:
+                notes.append("profile %s vacuous: %s (%s=%d)" % (prof, what, k, g(prof, k)))
+    pl = forced_d.get("payload") or {}
+    na = (pl.get("coverage") or {}).get("not_answered")
+    if pl.get("established") and na:
+        notes.append("payload scenario: some payloads were never echoed although the call returned (%s) - request lost on the way to the handler?" % na)
+    return notes
+
+
 def run(ctx):
     binp = ctx.go_build("./cmd/c17")
     quick = ctx.tier == "quick"
     if ctx.replay:
         rp = json.load(open(ctx.replay))["replay"]
-        if rp.get("scenario") in ("lost", "deadlock"):
+        if rp.get("scenario") in FORCED:
             d = run_forced(ctx, binp, rp["scenario"], rp.get("timeout_ms", 300))
             st = report_forced(ctx, d)
             if st == "inconclusive":
                 raise Inconclusive("forced schedule could not be established: %s" % d.get("why_not_established"))
             finish(ctx, LEVEL, dict(traces_validated_against_impl=0, samples=(d.get("events") or [])[:12], forced=st))
-        a = rp.get("args") or dict(seed=ctx.seed, rounds=4, workers=8, per_worker=4, timeout_ms=100)
+        a = rp.get("args") or dict(seed=ctx.seed, rounds=QUICK_PROFILES, workers=8, per_worker=4, timeout_ms=100)
         t = run_traffic(ctx, binp, "replay", a["seed"], a["rounds"], a["workers"], a["per_worker"], a["timeout_ms"])
         for f in t.get("findings") or []:
             ctx.violation(f["key"], f["what"], dict(scenario="traffic", args=a, detail=f.get("detail")))
         finish(ctx, LEVEL, dict(traces_validated_against_impl=0, samples=t.get("samples") or [], calls=t["calls"]))
 
-    # ---- (ii) forced schedules on the real code (before anything CPU-heavy runs)
+    # ---- (ii) forced schedules and directed scenarios on the real code (before anything CPU-heavy runs)
     def forced_with_retries(scenario):
         # a schedule that could not be established (the machine was too busy for the hooks' rendezvous) says nothing: try again
+        t0, step = FORCED_T[scenario]
         for attempt in range(4):
-            d = run_forced(ctx, binp, scenario, 300 + 200 * attempt)
+            d = run_forced(ctx, binp, scenario, t0 + step * attempt)
             if d.get("violation") or d.get("established"):
                 return d
             log("[c17] forced %s not established (%s), attempt %d" % (scenario, d.get("why_not_established"), attempt + 1))
         return d
-    lost = forced_with_retries("lost")
-    dl = forced_with_retries("deadlock")
-    forced = {}
-    for d in (lost, dl):
-        forced[d["scenario"]] = report_forced(ctx, d)
-        log("[c17] forced %-8s: %s%s" % (d["scenario"], forced[d["scenario"]],
-                                          (" (" + (d.get("violation") or d.get("why_not_established") or "") + ")") if forced[d["scenario"]] != "ok" else ""))
+    fd = {}; forced = {}
+    for sc in FORCED:
+        d = forced_with_retries(sc)
+        if sc == "blackhole" and d.get("violation") and d.get("established"):
+            # timing enters this verdict (lock samples, durations): it must reproduce before it counts
+            d2 = forced_with_retries(sc)
+            if not d2.get("violation"):
+                log("[c17] blackhole violation did not reproduce: treated as not established")
+                d = dict(d2, established=False, why_not_established="a violation in the first run did not reproduce")
+        fd[sc] = d
+        forced[sc] = report_forced(ctx, d)
+        log("[c17] forced %-10s: %s%s" % (sc, forced[sc], (" (" + (d.get("violation") or d.get("why_not_established") or "") + ")") if forced[sc] != "ok" else ""))
+    lost, dl = fd["lost"], fd["deadlock"]
 
-    # ---- (i) random concurrent traffic
-    plan = [(100, 6)] if quick else [(50, 9), (100, 9), (200, 6)]
+    # ---- (i) random concurrent traffic, one profile per round
+    plan = [(100, QUICK_PROFILES)] if quick else [(50, THOROUGH_PROFILES), (100, THOROUGH_PROFILES), (200, QUICK_PROFILES)]
     runs = []
-    for i, (tms, rounds) in enumerate(plan):
-        t = run_traffic(ctx, binp, "r%d" % i, ctx.seed * 100 + i, rounds, 8, 4, tms)
+    for i, (tms, profs) in enumerate(plan):
+        t = run_traffic(ctx, binp, "r%d" % i, ctx.seed * 100 + i, profs, 8, 4, tms)
         runs.append(t)
         for f in t.get("findings") or []:
             ctx.violation(f["key"], f["what"], dict(scenario="traffic", args=t["args"], detail=f.get("detail")))
-        log("[c17] traffic T=%dms: %d/%d rounds, %d calls, %d lines, findings=%s" % (
-            tms, t["rounds_done"], t["rounds"], t["calls"], t["lines"], sorted(set(f["key"] for f in t.get("findings") or []))))
-    stats = {}
+        log("[c17] traffic T=%dms: %d/%d rounds (%s), %d calls, %d lines, findings=%s" % (
+            tms, t["rounds_done"], t["rounds"], ",".join(profs), t["calls"], t["lines"], sorted(set(f["key"] for f in t.get("findings") or []))))
+    stats = {}; per = {}
     for t in runs:
         for k, v in t["stats"].items():
             stats[k] = stats.get(k, 0) + v
-    traces = [x for t in runs for x in t.get("traces") or []]
+        for pr, st in (t.get("per_profile") or {}).items():
+            dst = per.setdefault(pr, {})
+            for k, v in st.items():
+                dst[k] = dst.get(k, 0) + v
+    traces = [dict(x, args=t["args"]) for t in runs for x in t.get("traces") or []]
 
     # ---- shape of the implementation, as exhibited by the recorded events
-    shape = dict(RegisterFirst=None, DeliverUnderLock=None, Buffered=None)
+    shape = dict(RegisterFirst=None, DeliverUnderLock=None, Buffered=None, SendUnderLock=None)
     if stats.get("RegisterBeforeSend", 0) + stats.get("SendBeforeRegister", 0) > 0:
         if stats.get("RegisterBeforeSend", 0) and stats.get("SendBeforeRegister", 0):
             raise Inconclusive("attempts both register-before-send and send-before-register: shape not uniform")
@@ -253,10 +339,41 @@ def run(ctx):
         shape["DeliverUnderLock"] = dl["shape"]["deliver_under_lock"]
     if "buffered_or_nonblocking_send" in (dl.get("shape") or {}):
         shape["Buffered"] = dl["shape"]["buffered_or_nonblocking_send"]
+    if "send_under_lock" in (fd["blackhole"].get("shape") or {}):
+        shape["SendUnderLock"] = bool(fd["blackhole"]["shape"]["send_under_lock"]) and shape["RegisterFirst"] is not False
     cands = candidates(shape)
     log("[c17] observed shape %s -> candidate variants %s" % (shape, [shape_name(c) for c in cands]))
 
-    # ---- trace validation, one TLC run per round, in parallel
+    # ---- model checking (the variant the code follows, and the safe variant) runs next to the trace validation
+    def model_checks(variant):
+        mc = []
+        cfgs = [(2, 1, 1, True)] if quick else [(2, 1, 1, True), (2, 2, 1, True), (3, 1, 0, False)]   # 3x2: > 12M states, outside the tier budget
+        for calls, retry, dupb, canfail in cfgs:
+            tag = "%dx%d" % (calls, retry)
+            a = model_check(ctx, "obs_" + tag, variant, calls, retry, dupb, canfail); a["role"] = "observed"
+            mc.append(a)
+            if variant != SAFE:
+                b = model_check(ctx, "safe_" + tag, SAFE, calls, retry, dupb, canfail, split=False); b["role"] = "safe"
+                mc.append(b)
+            log("[c17] TLC %s: observed %s states=%d violated=%s | safe %s" % (tag, a["shape"], a["states"], a["violated"],
+                "states=%d violated=%s" % (mc[-1]["states"], mc[-1]["violated"]) if variant != SAFE else "(same)"))
+        # a call whose send blocks in the network for ever must not block the others
+        sa = model_check_stall(ctx, "obs", variant, 2 if quick else 3); sa["role"] = "observed"; mc.append(sa)
+        if variant != SAFE:
+            sb = model_check_stall(ctx, "safe", SAFE, 2 if quick else 3); sb["role"] = "safe"; mc.append(sb)
+        log("[c17] TLC stall: observed %s states=%d violated=%s" % (sa["shape"], sa["states"], sa["violated"]))
+        control = None
+        if not quick:
+            control = model_check_stall(ctx, "control", dict(SAFE, SendUnderLock=True), 2)
+            if "NoDeadlock" not in control["violated"]:
+                raise Inconclusive("control: the SendUnderLock shape with a stalled send does not violate NoDeadlock - the Stall model is vacuous")
+        partial = []
+        if not quick and variant != SAFE:
+            for s in (dict(SAFE, Buffered=False, TrySend=False), dict(SAFE, RegisterFirst=False), dict(SAFE, TrySend=False)):
+                partial.append(model_check(ctx, "part_" + shape_name(s).replace("/", "").replace("=", ""), s, 2, 1, 1))
+        lv = liveness(ctx, "safe", SAFE, 2, 1, 0 if quick else 1)
+        return dict(variant=variant, mc=mc, partial=partial, lv=lv, control=control)
+
     def val(job):
         i, tf = job
         last = None
@@ -267,57 +384,46 @@ def run(ctx):
                 return r
             last = last or r
         return last
-    with ThreadPoolExecutor(max_workers=8) as ex:
+
+    def val_forced(d):
+        # forced traces: does the specification of the (predicted) variant agree with the real run?
+        r = validate_trace(ctx, d["trace"], cands[0], tail=True, tag="forced_" + d["scenario"])
+        return d["scenario"], dict(lines=r["lines"], accepted=r["accepted"], invariants_false=[list(x) for x in r["inv"]],
+                                   every_continuation_checked=True, NoDeadlock_violated=r["deadlock"])
+    ftraces = [d for d in fd.values() if d.get("trace") and d.get("lines", 0) > 1]
+    with ThreadPoolExecutor(max_workers=10) as ex:
+        mcf = ex.submit(model_checks, cands[0])
+        ff = [ex.submit(val_forced, d) for d in ftraces]
         vres = list(ex.map(val, list(enumerate(traces))))
+        spec_agrees = dict(f.result() for f in ff)
+        mres = mcf.result()
     accepted = 0; lines_ok = 0; used = {}
     for tf, r in zip(traces, vres):
         used[shape_name(r["variant"])] = used.get(shape_name(r["variant"]), 0) + 1
+        where = "%s round %d host %s" % (tf.get("profile"), tf.get("round", -1), tf.get("host"))
         if r["deadlock"]:
-            ctx.violation("deadlock:spec-state-without-successor", "a state reached by the real code (trace %s, line %d) has no successor in ReqResp although calls are unfinished" % (
-                os.path.basename(tf["file"]), r["accepted"]), dict(scenario="traffic", trace=[json.loads(x) for x in open(tf["file"]).read().splitlines()[:r["accepted"] + 1]][-60:]))
+            ctx.violation("deadlock:spec-state-without-successor", "a state reached by the real code (trace %s, %s, line %d) has no successor in ReqResp although calls are unfinished" % (
+                os.path.basename(tf["file"]), where, r["accepted"]), dict(scenario="traffic", trace=[json.loads(x) for x in open(tf["file"]).read().splitlines()[:r["accepted"] + 1]][-60:]))
             continue
         if r["rejected"]:
             rj = r["rejected"]
             ctx.violation("trace-rejected:" + rj["event"]["ev"],
-                          "the real code took a step that ReqResp (variant %s) does not allow: line %d %s" % (shape_name(r["variant"]), rj["line"], json.dumps(rj["event"])),
-                          dict(scenario="traffic", line=rj["line"], context=rj["context"], variant=r["variant"]))
+                          "the real code took a step that ReqResp (variant %s) does not allow: %s, line %d %s" % (shape_name(r["variant"]), where, rj["line"], json.dumps(rj["event"])),
+                          dict(scenario="traffic", args=tf.get("args"), line=rj["line"], context=rj["context"], variant=r["variant"], profile=tf.get("profile")))
             continue
         accepted += 1; lines_ok += r["lines"]
         all_lines = None
         for name, ln in r["inv"]:
             all_lines = all_lines or open(tf["file"]).read().splitlines()
             ctx.violation(INV_KEY.get(name, "trace-invariant:" + name),
-                          "%s is false in a state reached by the real code under random traffic (trace line %d: %s)" % (name, ln, all_lines[ln - 1][:200]),
-                          dict(scenario="traffic", invariant=name, line=ln, context=[json.loads(x) for x in all_lines[max(0, ln - 10):ln + 3]]))
-    log("[c17] trace validation: %d/%d rounds accepted (%d lines), variants used %s" % (accepted, len(traces), lines_ok, used))
+                          "%s is false in a state reached by the real code under random traffic (%s, trace line %d: %s)" % (name, where, ln, all_lines[ln - 1][:200]),
+                          dict(scenario="traffic", args=tf.get("args"), invariant=name, line=ln, profile=tf.get("profile"), context=[json.loads(x) for x in all_lines[max(0, ln - 10):ln + 3]]))
+    log("[c17] trace validation: %d/%d traces accepted (%d lines), variants used %s" % (accepted, len(traces), lines_ok, used))
     variant = vres[0]["variant"] if vres else cands[0]
-
-    # forced traces: does the specification of the observed variant agree with the real run?
-    spec_agrees = {}
-    for d in (lost, dl):
-        if d.get("trace") and d.get("lines", 0) > 1:
-            r = validate_trace(ctx, d["trace"], variant, tail=True, tag="forced_" + d["scenario"])
-            spec_agrees[d["scenario"]] = dict(lines=r["lines"], accepted=r["accepted"], invariants_false=[list(x) for x in r["inv"]],
-                                              every_continuation_checked=True, NoDeadlock_violated=r["deadlock"])
     log("[c17] forced traces against the spec: %s" % json.dumps(spec_agrees))
-
-    # ---- model checking: the variant the code follows, and the safe variant
-    mc = []
-    cfgs = [(2, 1, 1, True)] if quick else [(2, 1, 1, True), (2, 2, 1, True), (3, 1, 0, False)]   # 3x2: > 12M states, outside the tier budget
-    for calls, retry, dupb, canfail in cfgs:
-        tag = "%dx%d" % (calls, retry)
-        a = model_check(ctx, "obs_" + tag, variant, calls, retry, dupb, canfail); a["role"] = "observed"
-        mc.append(a)
-        if variant != SAFE:
-            b = model_check(ctx, "safe_" + tag, SAFE, calls, retry, dupb, canfail, split=False); b["role"] = "safe"
-            mc.append(b)
-        log("[c17] TLC %s: observed %s states=%d violated=%s | safe %s" % (tag, a["shape"], a["states"], a["violated"],
-            "states=%d violated=%s" % (mc[-1]["states"], mc[-1]["violated"]) if variant != SAFE else "(same)"))
-    partial = []
-    if not quick and variant != SAFE:
-        for s in (dict(SAFE, Buffered=False, TrySend=False), dict(SAFE, RegisterFirst=False), dict(SAFE, TrySend=False)):
-            partial.append(model_check(ctx, "part_" + shape_name(s).replace("/", "").replace("=", ""), s, 2, 1, 1))
-    lv = liveness(ctx, "safe", SAFE, 2, 1, 0 if quick else 1)
+    if variant != mres["variant"]:
+        mres = model_checks(variant)
+    mc, partial, lv = mres["mc"], mres["partial"], mres["lv"]
     safe_bad = [m for m in mc if m["role"] == "safe" and m["violated"]]
     if safe_bad or not lv["holds"]:
         raise Inconclusive("the SAFE variant of ReqResp violates %s - specification problem, not a verdict on the code" % (
@@ -330,47 +436,64 @@ def run(ctx):
     if "NoLostReply" in spec_viol and not any(k.startswith("lost-reply") for k in keys):
         notes.append("TLC: NoLostReply violated for the observed variant, not reproduced on the real code (forced lost: %s)" % forced["lost"])
     if "NoDeadlock" in spec_viol and not any(k.startswith("deadlock") for k in keys):
-        notes.append("TLC: NoDeadlock violated for the observed variant, not reproduced on the real code (forced deadlock: %s)" % forced["deadlock"])
+        notes.append("TLC: NoDeadlock violated for the observed variant, not reproduced on the real code (forced deadlock: %s, blackhole: %s)" % (forced["deadlock"], forced["blackhole"]))
     for sc, st in forced.items():
         if st == "inconclusive":
-            d = lost if sc == "lost" else dl
-            notes.append("forced schedule '%s' could not be established: %s" % (sc, d.get("why_not_established")))
+            notes.append("forced schedule '%s' could not be established: %s" % (sc, fd[sc].get("why_not_established")))
     rounds_planned = sum(t["rounds"] for t in runs)
     rounds_done = sum(t["rounds_done"] for t in runs)
-    if stats.get("Timers", 0) == 0 or stats.get("Found", 0) == 0 or stats.get("LateMiss", 0) == 0 or stats.get("Cancel", 0) == 0:
-        notes.append("random traffic was vacuous (timers=%d delivered=%d late=%d cancels=%d)" % (
-            stats.get("Timers", 0), stats.get("Found", 0), stats.get("LateMiss", 0), stats.get("Cancel", 0)))
+    notes += vacuity(stats, per, [p for _, profs in plan for p in profs], fd)
     if rounds_done == 0:
         notes.append("no traffic round completed")
+    if traces and accepted == 0 and not ctx.violations:
+        notes.append("no trace was validated")
+    for t in runs:
+        notes += t.get("notes") or []
     cov = dict(
         traces_validated_against_impl=accepted + sum(1 for v in spec_agrees.values() if v["accepted"] == v["lines"]),
         trace_rounds=dict(planned=rounds_planned, completed=rounds_done, abandoned_after_hang=sum(t.get("rounds_abandoned", 0) for t in runs),
-                          accepted_by_tlc=accepted, lines_accepted=lines_ok),
+                          traces=len(traces), accepted_by_tlc=accepted, lines_accepted=lines_ok),
+        profiles={pr: {k: v for k, v in st.items()} for pr, st in per.items()},
         samples=(runs[0].get("samples") or [])[:6] if runs else [],
         observed_shape=shape, variant_validated=shape_name(variant),
         real_calls=sum(t["calls"] for t in runs), attempts=stats.get("Attempts", 0), timers_fired=stats.get("Timers", 0),
+        attempt_timers_measured=stats.get("TimersMeasured", 0), handler_returns_logged=stats.get("Responded", 0),
         responses_handled=stats.get("Locked", 0), delivered=stats.get("Found", 0), misses=stats.get("Miss", 0),
         late_or_duplicate_misses=stats.get("LateMiss", 0), duplicates_injected=stats.get("Dups", 0),
         responses_before_send_returned=stats.get("EarlyLocked", 0),
+        failed_sends_in_traffic=stats.get("FailedSends", 0), handler_error_replies_delivered=stats.get("HandlerErrorDelivered", 0),
+        empty_replies_delivered=stats.get("EmptyReplyDelivered", 0), nil_requests_answered=stats.get("NilRequestAnswered", 0),
+        calls_by_second_host=stats.get("CallsFromB", 0), nested_requests_answered=stats.get("NestedResp", 0),
+        second_responder_replies=stats.get("SecondResponderReplies", 0), burst_callers=stats.get("BurstCallers", 0),
+        pending_when_connection_closed=stats.get("PendingWhenConnectionClosed", 0),
+        deadline_calls_giving_up_early=stats.get("EarlyGiveUp", 0), attempts_sharing_an_id=stats.get("SharedIdAttempts", 0),
         results=dict(resp=stats.get("Resp", 0), timeout=stats.get("Timeout", 0), cancel=stats.get("Cancel", 0), error=stats.get("Error", 0)),
         max_call_duration_ms=max([t["max_call_duration_us"] for t in runs] + [0]) // 1000,
         duration_bound_ms=[t["duration_bound_us"] // 1000 for t in runs],
+        timer_noise_max_ms=max([t.get("timer_noise_max_us", 0) for t in runs] + [0]) // 1000,
         pending_checks_at_quiescence=sum(t["pending_checks"] for t in runs),
         forced_schedules=dict(
-            lost=dict(status=forced["lost"], established=lost.get("established"), attempts=lost.get("attempts"), call=lost.get("call")),
+            lost=dict(status=forced["lost"], established=lost.get("established"), attempts=lost.get("attempts"), call=lost.get("call"),
+                      failed_send_probes=len(lost.get("other_calls") or [])),
             deadlock=dict(status=forced["deadlock"], established=dl.get("established"), attempts=dl.get("attempts"),
                           call_returned=not (dl.get("call") or {}).get("Hung"), fresh_call_returned=not (dl.get("fresh_call") or {}).get("Hung"),
-                          dump=dl.get("dump"))),
+                          dump=dl.get("dump")),
+            cancelrace=dict(status=forced["cancelrace"], established=fd["cancelrace"].get("established"), coverage=fd["cancelrace"].get("coverage")),
+            blackhole=dict(status=forced["blackhole"], established=fd["blackhole"].get("established"), coverage=fd["blackhole"].get("coverage")),
+            payload=dict(status=forced["payload"], established=fd["payload"].get("established"), coverage=fd["payload"].get("coverage"))),
         forced_traces_vs_spec=spec_agrees,
         model_checking=[{k: v for k, v in m.items() if k != "counterexamples"} for m in mc],
         model_counterexamples={m["shape"] + " %dx%d" % (m["calls"], m["max_retry"]): m["counterexamples"] for m in mc if m["counterexamples"]},
         partial_fix_variants=[{k: v for k, v in m.items() if k != "counterexamples"} for m in partial],
+        stall_control=({k: v for k, v in mres["control"].items() if k != "counterexamples"} if mres.get("control") else None),
         liveness=lv, exhaustive=True, notes=notes)
     assumptions = [
-        "the remote peer, its handler latency and the network are environment in ReqResp: a response may arrive at any time after the send, or be duplicated",
-        "register / unregister critical sections of the requester are atomic in the model (they contain no blocking operation)",
+        "the network between two connected honest hosts delivers (loopback): a reply handed to the responder's layer without a logged send error must reach the lookup of the requesting host; the remote handler's latency is environment",
+        "register / unregister critical sections of the requester are atomic in the model unless the directed black-hole scenario observes resMu held across mp.send (shape constant SendUnderLock)",
         "events logged under resMu (req.registered, res.locked, res.beforeDeliver) are totally ordered as executed; steps without a schedule point (receive, unlock, unregister) are silent in the trace specification",
-        "exhaustive model checking covers 2-3 concurrent calls x retry budget 1-2; the real code runs with messageMaxRetries=3 and 8 concurrent callers",
+        "exhaustive model checking covers 2-3 concurrent calls x retry budget 1-2; the real code runs with messageMaxRetries=3 and 8-64 concurrent callers",
+        "a request that the REMOTE layer drops before its handler runs ends with a timeout error, which the statement allows; such a run is reported as vacuous (inconclusive) by the payload scenario, not as a violation",
+        "'within its timeout': an attempt timer that fires earlier than 0.9 x the configured timeout is a violation per attempt (trace specification); a timer longer than the configured one is judged by the shortest timer of a round exceeding 2 x the timeout",
     ]
     for n in notes:
         log("[c17] NOTE " + n)
